@@ -423,7 +423,7 @@ func trunc(s string, n int) string {
 
 // genInput draws one hostile input for the target.
 func genInput(t *rapid.T, tg *target) (in []byte, seedName, how string, kinds []string) {
-	mode := rapid.IntRange(0, 19).Draw(t, "mode")
+	mode := mut.Uniform(t, "mode", 20)
 	opts := mut.Opts{Others: tg.others, Seq: tg.seq, CBORPercent: tg.cborPercent}
 	all := tg.seeds
 	if len(tg.extra) > 0 && mode >= 16 {
@@ -441,21 +441,21 @@ func genInput(t *rapid.T, tg *target) (in []byte, seedName, how string, kinds []
 		}
 	case mode == 0 && tg.hostile:
 		// hostile constant, possibly mutated once
-		hn := hostileNames[rapid.IntRange(0, len(hostileNames)-1).Draw(t, "hconst")]
+		hn := mut.Pick(t, "hconst", hostileNames)
 		in = hostileConst(hn)
 		seedName, how = "hostile:"+hn, "hostile-mutated"
 		opts.MaxSteps = 1
 		in, kinds = mut.Mutate(t, in, opts)
 	case mode == 1:
 		// two seeds spliced, then mutated
-		a := tg.seeds[rapid.IntRange(0, len(tg.seeds)-1).Draw(t, "seedA")]
-		b := tg.seeds[rapid.IntRange(0, len(tg.seeds)-1).Draw(t, "seedB")]
-		cut := rapid.IntRange(0, len(a.data)).Draw(t, "cutA")
-		cut2 := rapid.IntRange(0, len(b.data)).Draw(t, "cutB")
+		a := mut.Pick(t, "seedA", tg.seeds)
+		b := mut.Pick(t, "seedB", tg.seeds)
+		cut := mut.Intn(t, "cutA", 0, len(a.data))
+		cut2 := mut.Intn(t, "cutB", 0, len(b.data))
 		in = append(append([]byte{}, a.data[:cut]...), b.data[cut2:]...)
 		seedName, how, kinds = a.name+"+"+b.name, "crossover", []string{"crossover"}
 	default:
-		s := all[rapid.IntRange(0, len(all)-1).Draw(t, "seed")]
+		s := mut.Pick(t, "seed", all)
 		if tg.hot != nil {
 			opts.Hot = tg.hot(s.data)
 		}
